@@ -44,6 +44,18 @@ def attribute(ctx, feats, findings):
     return None
 
 
+def renamed_programs(quick):
+    import copy
+    from lib.gen_c import RENAMES
+    out = {}
+    for n, (k, p) in enumerate(directed_programs().items()):
+        for r in ([n % len(RENAMES)] if quick and not k.startswith('N_') else range(len(RENAMES))):
+            q = copy.deepcopy(p)
+            q.rename = RENAMES[r]
+            out['%s~r%d' % (k, r)] = q
+    return out
+
+
 def run(ctx):
     quick = ctx.tier == 'quick'
     rng = ctx.rng
@@ -78,8 +90,12 @@ def run(ctx):
             # the fixed enumeration of the bait families: the same programs every run
             ('directed', None, 0, ['-O0', '-O1'] if quick else ['-O0', '-O1', '-O2', '-O3']),
             # the fixed enumeration of branch spans around 128 bytes (repaired branches must still decide as C does)
-            ('long', None, 0, ['-O1'] if quick else ['-O0', '-O1'])]:
-        progs = ({'%s%d' % (label, i): gen_program(rng, opts) for i in range(n)} if label not in ('directed', 'long')
+            ('long', None, 0, ['-O1'] if quick else ['-O0', '-O1']),
+            # the directed programs with their variables and functions called like a keyword followed by more
+            # letters (gen_c.RENAMES): the names must not change the meaning
+            ('renamed', None, 0, ['-O1'] if quick else ['-O0', '-O1'])]:
+        progs = ({'%s%d' % (label, i): gen_program(rng, opts) for i in range(n)} if label not in ('directed', 'long', 'renamed')
+                 else renamed_programs(quick) if label == 'renamed'
                  else (directed_programs() if label == 'directed'
                        # (arrays of 16-bit elements are laid out low bytes first, then high bytes: the harness does not
                        # map them to C values; those programs are for the range checks of C03 / C13 only)
@@ -118,7 +134,9 @@ def run(ctx):
                     continue
                 viol.append({'why': 'emitted code and C semantics disagree (%s): %s' % (v, d), 'level': O, 'profile': label,
                              'minimised_program': small.source(), 'features': sorted(fs), 'original_program': o['src'],
-                             'initial': {kk: vv for kk, vv in ns.items()}})
+                             'initial': {kk: vv for kk, vv in ns.items()},
+                             # (cells and initial values are given under the plain names; the program text carries these)
+                             'renaming': getattr(small, 'rename', None)})
     agree = sum(st.get('agree', 0) for st in stats.values())
     ctx.cov['programs'] = nprog
     ctx.cov['evaluations'] += sum(sum(v for k, v in st.items() if not k.startswith('compile-')) for st in stats.values())
